@@ -94,7 +94,44 @@ class MatchDesugar(ast.NodeTransformer):
         return out
 
 
+def _const_like(e: ast.AST) -> bool:
+    """a constant, an ALL_CAPS name, or an attribute chain rooted in a Capitalised name (class / enum constant)"""
+    if isinstance(e, ast.Constant):
+        return True
+    if isinstance(e, ast.UnaryOp) and isinstance(e.operand, ast.Constant):
+        return True
+    if isinstance(e, ast.Name):
+        return e.id.isupper() or (e.id[:1].isupper() and not e.id.isupper())
+    if isinstance(e, ast.Attribute):
+        r: ast.AST = e
+        while isinstance(r, ast.Attribute):
+            r = r.value
+        return isinstance(r, ast.Name) and r.id[:1].isupper()
+    return False
+
+
+def _pure_operand(e: ast.AST) -> bool:
+    return all(isinstance(x, (ast.Name, ast.Attribute, ast.Constant, ast.Subscript, ast.Slice, ast.UnaryOp, ast.USub, ast.UAdd, ast.Not, ast.expr_context)) for x in ast.walk(e))
+
+
+class CanonCompare(ast.NodeTransformer):
+    """`==`, `!=`, `is`, `is not` are symmetric: one operand order for the analyses, whatever the source says.
+    The constant-like operand goes right; two non-constants are ordered by their text.  Only call-free operands are
+    reordered (evaluation order of calls stays as written)."""
+
+    def visit_Compare(self, node: ast.Compare):
+        self.generic_visit(node)
+        if len(node.ops) == 1 and isinstance(node.ops[0], (ast.Eq, ast.NotEq, ast.Is, ast.IsNot)):
+            a, b = node.left, node.comparators[0]
+            if _pure_operand(a) and _pure_operand(b):
+                ca, cb = _const_like(a), _const_like(b)
+                swap = (ca and not cb) or (ca == cb and ast.unparse(a) > ast.unparse(b))
+                if swap:
+                    node.left, node.comparators = b, [a]
+        return node
+
+
 def desugar(tree: ast.Module) -> ast.Module:
-    if not any(isinstance(n, ast.Match) for n in ast.walk(tree)):
-        return tree
-    return ast.fix_missing_locations(MatchDesugar().visit(tree))
+    if any(isinstance(n, ast.Match) for n in ast.walk(tree)):
+        tree = ast.fix_missing_locations(MatchDesugar().visit(tree))
+    return CanonCompare().visit(tree)
